@@ -558,8 +558,17 @@ def impl(case: Case) -> list[str]:
                 rdec = list(reader)
             except ValueError:
                 rdec = None
+            # streaming is a function of the file: a second pass over the same reader object, and a pass
+            # started while another one is in progress, must yield the same decoded events (seed C33-7)
+            try:
+                it1 = iter(reader)
+                head = [e for _, e in zip(range(1), it1)]
+                rdec2 = list(reader)
+                rdec3 = head + list(it1)
+            except ValueError:
+                rdec2 = rdec3 = None
             ld = loaded.schema == schema and loaded.raw == log.raw and ldec == dec
-            rd = reader.schema == schema and rdec == dec
+            rd = reader.schema == schema and rdec == dec and rdec2 == dec and rdec3 == dec
             wr = open(wpath).read() == text
 
             def same(sink):
